@@ -231,8 +231,10 @@ contract(E + 'prepare_tag_prefix', props=['C05', 'C12'], params={'prefix': 'str'
     modifies=[], raises=[EERR])
 
 define('doc_ok', ['e'], "typeis(e, 'obj:yaml.events.DocumentStartEvent') ==> ("
-       "(as_(e, 'obj:yaml.events.DocumentStartEvent').version is None or typeis(as_(e, 'obj:yaml.events.DocumentStartEvent').version, 'tuple')) and "
-       "(as_(e, 'obj:yaml.events.DocumentStartEvent').tags is None or (typeis(as_(e, 'obj:yaml.events.DocumentStartEvent').tags, 'dict') and sortable_keys(as_(e, 'obj:yaml.events.DocumentStartEvent').tags))))")
+       "(as_(e, 'obj:yaml.events.DocumentStartEvent').version is None or (typeis(as_(e, 'obj:yaml.events.DocumentStartEvent').version, 'tuple') and len(as_(e, 'obj:yaml.events.DocumentStartEvent').version) == 2 "
+       "and typeis(as_(e, 'obj:yaml.events.DocumentStartEvent').version[0], 'int') and typeis(as_(e, 'obj:yaml.events.DocumentStartEvent').version[1], 'int'))) and "
+       "(as_(e, 'obj:yaml.events.DocumentStartEvent').tags is None or (typeis(as_(e, 'obj:yaml.events.DocumentStartEvent').tags, 'dict') and sortable_keys(as_(e, 'obj:yaml.events.DocumentStartEvent').tags) and "
+       "forall_v(k, haskey(as_(e, 'obj:yaml.events.DocumentStartEvent').tags, k) ==> (typeis(k, 'str') and typeis(dget(as_(e, 'obj:yaml.events.DocumentStartEvent').tags, k), 'str'))))))")
 
 contract(E + 'check_empty_document', props=['C12'],
     requires=["len(self.events) > 0 ==> ev_ok(self.events[0])"], result='bool',
